@@ -442,7 +442,7 @@ func topOxiaFrame() string {
 			f = strings.TrimPrefix(f, "github.com/oxia-db/oxia/")
 			f = strings.TrimPrefix(f, "wal/")
 			fs = append(fs, f)
-			if len(fs) == 3 {
+			if len(fs) == 2 {
 				break
 			}
 		}
@@ -902,6 +902,7 @@ type engine struct {
 	stop     bool
 	nviol    map[string]int
 	evalIdx  int64
+	inProc   int64
 	imgIdx   int64
 	timer    *time.Timer
 }
@@ -958,6 +959,16 @@ func (en *engine) emit(im *image) {
 		if idx < en.job.StartAt {
 			continue // evaluated by an earlier child of the same job
 		}
+		if en.inProc++; en.inProc%256 == 0 && en.job.Only == "" && resourcesLow() {
+			// failed opens leak the segment's fd and mapping inside the WAL code (no handle is returned that
+			// could be closed): let a fresh child continue
+			en.res.ResumeAt = idx
+			en.res.Counters["child_restarts_for_leaked_fds_or_mappings"]++
+			out, _ := json.Marshal(en.res)
+			fmt.Println(string(out))
+			_ = os.RemoveAll(scratch)
+			os.Exit(0)
+		}
 		var release func()
 		if im.heavy {
 			release = acquireHeavySlot()
@@ -1012,11 +1023,22 @@ func (en *engine) emit(im *image) {
 	}
 }
 
+// resourcesLow reports that this process is getting close to the fd limit or the kernel's per-process
+// mapping limit (vm.max_map_count, 65530 by default).
+func resourcesLow() bool {
+	fds, _ := os.ReadDir("/proc/self/fd")
+	if len(fds) > 6000 {
+		return true
+	}
+	maps, _ := os.ReadFile("/proc/self/maps")
+	return bytes.Count(maps, []byte{'\n'}) > 30000
+}
+
 // acquireHeavySlot bounds the number of multi-GiB evaluations running at the same time on the machine
 // (all children of all concurrently running C10 checks share the lock files).
 func acquireHeavySlot() (release func()) {
 	for {
-		for i := 0; i < 4; i++ {
+		for i := 0; i < 3; i++ {
 			f, err := os.OpenFile(fmt.Sprintf("/dev/shm/verif-c10-heavy-%d.lock", i), os.O_CREATE|os.O_RDWR, 0o666)
 			if err != nil {
 				infra("heavy slot: %v", err)
@@ -1032,7 +1054,7 @@ func acquireHeavySlot() (release func()) {
 
 const (
 	hangHeapLimit = 1 << 30
-	hangTimeLimit = 30 * time.Second
+	hangTimeLimit = 90 * time.Second
 )
 
 // observeGuarded runs observe in its own goroutine and watches it: an evaluation normally takes well
@@ -1070,9 +1092,11 @@ func (en *engine) observeGuarded(im *image, p provSpec) (*obs, string) {
 			return nil, stuckFunction()
 		}
 		if ms.HeapAlloc > hangHeapLimit {
-			// (a single 4 GiB payload buffer requested by ReadRecordWithValidation for a length field
-			// >= 0xFFFFFFFC is slow to zero but ends in a panic: keep waiting for that one)
-			if f := stuckFunction(); f != "?" && !strings.HasSuffix(f, "ReadRecordWithValidation") {
+			// Index recovery of a segment of a few KiB that holds more than a GiB of heap is a loop that does
+			// not advance. (Elsewhere a large heap is the single 4 GiB payload buffer that
+			// ReadRecordWithValidation requests for a v1 length field >= 0xFFFFFFFC: slow to zero, but it ends
+			// in a panic - keep waiting for that one.)
+			if f := stuckFunction(); strings.HasSuffix(f, ".RecoverIndex") {
 				return nil, f
 			}
 		}
@@ -1449,7 +1473,11 @@ func (en *engine) corruptImages() {
 					continue
 				}
 				p := r.pos + b.hdr + i
-				for _, v := range reducedValues(c[p]) {
+				pvals := reducedValues
+				if b.h.Full256 && b.h.HeavyFull {
+					pvals = allValues // thorough tier
+				}
+				for _, v := range pvals(c[p]) {
 					en.emit(&image{desc: fmt.Sprintf("corrupt:%s@%d(entry %d payload+%d)=0x%02x", s.txn, p, r.off, i, v), files: mutate(s.txn, p, []byte{v}), kind: "corrupt",
 						region: "payload", entry: r.off, closed: isClosed})
 				}
